@@ -33,4 +33,12 @@ CHECKS = {
         "counters, TotpMatch fields) is the one the statement requires, and that the paths cover the bound.",
    note="Trusted: z3; token generation replaced by 'matches iff counter in a symbolic set'. Bounds: quick time<=1e6, window<=40, "
         "period<=30; thorough time<=2^40, window<=120, period<=3600. Outside: text-token regex cleaning beyond enumerated forms."),
+ "C09": dict(engine="E1-zshadow", category="other", design_ref="DESIGN.md §4 C09",
+   technique="exhaustive path exploration of the real using()/_generate_rounds()/_calc_needs_update() over symbolic integers + z3 entailment",
+   text="For every registered hasher with a cost setting, all feasible paths of using() with symbolic min/max/default/vary/rounds, "
+        "symbolic stored cost and symbolic random draw are explored (strict and relaxed); z3 proves limits are refused/clamped at the "
+        "hard limits, the default is clipped into the window, generated costs stay inside window and hard limits, the update flag is "
+        "exactly 'outside the window or scheme flag', and the parent class dictionaries are untouched; scrypt block_size/parallelism.",
+   note="Trusted: z3; rng stub contract; message formatting of symbolic ints replaced by placeholders inside norm_integer/using. "
+        "Outside: float/percent vary_rounds; ident/variant settings."),
 }
